@@ -292,6 +292,13 @@ class AppMutator(BaseMutator):
         can_process, mutations = mutation_batch
 
         if can_process:
+            # The optimizations below rewrite the mutations (field names,
+            # attributes, rename targets). Work on copies, so that the
+            # evolution definitions the caller passed in stay intact and can
+            # be processed again (EvolveAppTask optimizes them once when
+            # preparing a task and once more when building the batches).
+            mutations = copy.deepcopy(mutations)
+
             removed_mutations = set()
             deleted_fields = set()
             deleted_models = set()
